@@ -355,6 +355,8 @@ package actor
 //@   ensures result == r.address
 //@ func (*Ref).Equals
 //@   ensures other == nil ==> !result
+//@   ensures typeis(other, "*actor.Ref") && nilptr(other) ==> !result
+//@   ensures other != nil && !(typeis(other, "*actor.Ref") && nilptr(other)) ==> result == (r.address == refAddress(other) && r.path == refPath(other))
 
 // watch bookkeeping (C06): Watch / Unwatch only edit the watcher table - they tell nobody anything; in particular
 // nobody is told OnKilled here: termination is reported by the clean-up step alone
@@ -435,3 +437,89 @@ package actor
 //@   modifies s.status, gmap(told), gmap(toldn), gmap(tells)
 //@   ensures  old(s.status) == 1 ==> s.status == 2
 //@   ensures  !held(s.statusLock)
+
+// ---------------------------------------------------------------------------------------------
+// C03: where a message for a reference is delivered. findMailbox never returns nil, and it memoises a mailbox in
+// the reference ONLY when that mailbox belongs to the actor context registered under the reference's path: a
+// reference that does not (yet / any more) resolve keeps resolving through the registry on every send, so its
+// mail reaches the fallback (root) mailbox - where it is dead-lettered - only while it does not resolve.
+//@ func (*remoting.ServerActor).GetRemotingMailboxCentral
+//@   trusted
+//@   ensures result != nil
+//@ func (*remoting.MailboxCentral).GetOrCreate
+//@   trusted
+//@   ensures result != nil
+// the registry holds live contexts (with their mailboxes) and futures
+//@ pure regwf(s *System) bool = forall k any :: smhas(&s.actorContexts, k) && typeis(smval(&s.actorContexts, k), "*actor.Context") ==>
+//@     !nilptr(smval(&s.actorContexts, k)) && unboxed(smval(&s.actorContexts, k), "*actor.Context").mailbox != nil
+//@ func (*System).findMailbox
+//@   requires ctxwf(s.Context) && s.options != nil && s.options.Context != nil && s.options.Logger != nil && regwf(s)
+//@   requires ref != nil ==> (aval(ref.cache) != nil ==> *aval(ref.cache) != nil)
+//@   modifies ref.cache, anyold
+//@   ensures  result != nil
+//@   ensures  ref != nil && old(aval(ref.cache)) != nil ==> aval(ref.cache) == old(aval(ref.cache)) && result == *old(aval(ref.cache))
+//@   ensures  ref != nil && old(aval(ref.cache)) == nil && aval(ref.cache) != nil ==>
+//@            ref.address == refAddress(iface(s.ref)) && smhas(&s.actorContexts, iface(ref.path)) &&
+//@            typeis(smval(&s.actorContexts, iface(ref.path)), "*actor.Context") &&
+//@            *aval(ref.cache) == unboxed(smval(&s.actorContexts, iface(ref.path)), "*actor.Context").mailbox && result == *aval(ref.cache)
+//@   ensures  ref != nil && old(aval(ref.cache)) == nil && ref.address == refAddress(iface(s.ref)) && !smhas(&s.actorContexts, iface(ref.path)) ==>
+//@            result == s.mailbox && aval(ref.cache) == nil
+
+// HandleEnvelop: the decision what happens to an envelope the mailbox hands over. selftold(c, t) counts what a
+// context tells itself (the root context is the dead-letter office); calls_behavior counts runs of the behaviour.
+//   * dead   (state killed, or a user message while not running) and not a zombie: exactly ONE DeathLetterEvent is
+//     told to the system, the behaviour is not run, the actor's current envelope is untouched;
+//   * otherwise no dead letter is produced, and a user message (none of the core's own message types) runs the
+//     behaviour exactly once (a zombie runs the empty behaviour: it consumes its mail).
+//@ ghost selftold(ptr, mathint)
+//@ func (*Context).TellSelf
+//@   trusted
+//@   ghostinc selftold(c, typetag(message))
+//@ func (*BehaviorStack).Peek
+//@   ensures len(s.behaviors) == 0 ==> result == nil
+//@   ensures len(s.behaviors) > 0 ==> result == s.behaviors[len(s.behaviors) - 1]
+// the core's handlers for its own messages: trusted frames here (C05/C06/C08/C09 look inside some of them)
+//@ func (*Context).onKill
+//@   trusted
+//@   modifies anyold, gmap(told), gmap(toldn), gmap(tells), gmap(unregistered), gmap(unsuball), gmap(published), gmap(resumes), gmap(pauses), gmap(failures), ghost(calls_behavior)
+//@ func (*Context).onSupervise
+//@   trusted
+//@   modifies anyold, gmap(told), gmap(toldn), gmap(tells), gmap(published), gmap(resumes), gmap(pauses), gmap(failures)
+//@ func (*Context).onCommand
+//@   trusted
+//@   modifies anyold, gmap(published), gmap(resumes), gmap(pauses)
+//@ func (*Context).onRestart
+//@   trusted
+//@   modifies anyold, gmap(told), gmap(toldn), gmap(tells), gmap(unregistered), gmap(unsuball), gmap(published), gmap(resumes), gmap(pauses), gmap(failures), ghost(calls_behavior)
+//@ func (*Context).onPing
+//@   trusted
+//@   modifies anyold, gmap(told), gmap(toldn), gmap(tells)
+//@ func (*Context).onScheduler
+//@   trusted
+//@   modifies anyold, gmap(failures), ghost(calls_behavior)
+//@ pure isCoreMessage(m any) bool =
+//@     typeis(m, "*vivid.OnLaunch") || typeis(m, "*vivid.OnKill") || typeis(m, "*vivid.OnKilled") || typeis(m, "*actor.supervisionContext") ||
+//@     typeis(m, "*messages.NoneArgsCommandMessage") || typeis(m, "*actor.RestartMessage") || typeis(m, "*messages.PingMessage") ||
+//@     typeis(m, "*messages.WatchMessage") || typeis(m, "*messages.UnwatchMessage") || typeis(m, "*actor.SchedulerMessage")
+//@ pure deadFor(c *Context, e vivid.Envelop) bool = (c.state == 2 || (!envSystem(e) && c.state != 0)) && !c.zombie
+//@ pure foreignAtRoot(c *Context, e vivid.Envelop) bool = c.parent == nil && typeis(envReceiver(e), "*actor.Ref") && !nilptr(envReceiver(e)) &&
+//@     (refPath(envReceiver(e)) != c.ref.path || refAddress(envReceiver(e)) != c.ref.address)
+//@ func (*Context).HandleEnvelop
+//@   requires ctxwf(c) && watchersOK(c) && envelop != nil && ctxwf(c.system.Context)
+//@   requires len(c.behaviorStack.behaviors) > 0 && c.behaviorStack.behaviors[len(c.behaviorStack.behaviors) - 1] != nil
+//@   requires !nilptr(envMessage(envelop)) && envSender(envelop) != nil && !nilptr(envSender(envelop))
+//@   requires typeis(envMessage(envelop), "*vivid.OnKilled") ==> unboxed(envMessage(envelop), "*vivid.OnKilled").Ref != nil &&
+//@            (typeis(unboxed(envMessage(envelop), "*vivid.OnKilled").Ref, "*actor.Ref") ==> !nilptr(unboxed(envMessage(envelop), "*vivid.OnKilled").Ref))
+//@   modifies anyold, c.envelop, gmap(selftold), gmap(told), gmap(toldn), gmap(tells), gmap(unregistered), gmap(unsuball), gmap(published), gmap(resumes), gmap(pauses), gmap(failures), ghost(calls_behavior)
+// a dead letter that itself cannot be delivered (the root has stopped) is dropped: no further work
+//@   ensures  old(deadFor(c, envelop)) && typeis(envMessage(envelop), "ves.DeathLetterEvent") ==>
+//@            (forall d *Context, t mathint :: gcount(selftold, d, t) == old(gcount(selftold, d, t))) && ghost(calls_behavior) == old(ghost(calls_behavior))
+//@   ensures  old(deadFor(c, envelop)) && !typeis(envMessage(envelop), "ves.DeathLetterEvent") ==> gcount(selftold, c.system.Context, tagof("ves.DeathLetterEvent")) == old(gcount(selftold, c.system.Context, tagof("ves.DeathLetterEvent"))) + 1 &&
+//@            ghost(calls_behavior) == old(ghost(calls_behavior)) && c.envelop == old(c.envelop)
+// the root's mailbox is findMailbox's fallback: mail addressed to somebody else (a terminated or never existing
+// actor) is dead-lettered there exactly once - it is not fed to the root's own behaviour
+//@   ensures  !old(deadFor(c, envelop)) && old(foreignAtRoot(c, envelop)) ==> gcount(selftold, c.system.Context, tagof("ves.DeathLetterEvent")) == old(gcount(selftold, c.system.Context, tagof("ves.DeathLetterEvent"))) + 1 &&
+//@            ghost(calls_behavior) == old(ghost(calls_behavior)) && c.envelop == old(c.envelop)
+//@   ensures  !old(deadFor(c, envelop)) && !old(foreignAtRoot(c, envelop)) ==> forall d *Context, t mathint :: gcount(selftold, d, t) == old(gcount(selftold, d, t))
+//@   ensures  !old(deadFor(c, envelop)) && !old(foreignAtRoot(c, envelop)) && !isCoreMessage(envMessage(envelop)) ==> ghost(calls_behavior) == old(ghost(calls_behavior)) + 1
+//@   ensures  !old(deadFor(c, envelop)) && !old(foreignAtRoot(c, envelop)) && !isCoreMessage(envMessage(envelop)) && !old(c.zombie) ==> c.envelop == envelop
